@@ -352,7 +352,7 @@ func checkMain(args []string) int {
 			toReplay = append(toReplay, v)
 		}
 	}
-	os.MkdirAll(filepath.Join(verifDir, "replays"), 0755)
+	os.MkdirAll(replayDir(), 0755)
 	// witness replays (validation of the translator) + violation replays, natively, one go test per package
 	validated, witnessMismatch := nativeReplays(prop, results, toReplay)
 	for _, m := range witnessMismatch {
